@@ -25,4 +25,13 @@ ev C10 7 internal/tan/zz_demo_test.go ./internal/tan -- C10
 ev C10 8 internal/tan/zz_demo_test.go ./internal/tan -- C10
 ev C03 7 zz_demo_test.go . ./internal/server -- C20 C04
 }
+lane4() {
+ev C02 7 internal/rsm/zz_demo_test.go ./internal/rsm -- C08
+ev C06 8 internal/raft/zz_demo_test.go ./internal/raft -- C06
+ev C10 7 internal/tan/zz_demo_test.go ./internal/tan -- C10
+}
+lane5() {
+ev C04 7 internal/rsm/zz_demo_test.go ./internal/rsm -- C08
+ev C09 8 internal/logdb/zz_demo_test.go ./internal/logdb -- C09
+}
 "$@"
